@@ -293,8 +293,9 @@ def run_case(case, rec, mon=None):
         try:
             bank = gen.build_bank(cfg)
         except Exception as e:
+            # the generator only produces ranges and flags the documentation allows: such a bank exists
             rec.count("bank_construction_raised")
-            rec.note("bank %r raised %r" % (cfg, e))
+            mon.v("constructing the %s bank raised %r for a valid configuration" % (cfg["name"], e), check="construct", cls=cfg["name"], cfg=cfg)
             bank = None
         if bank is not None:
             nf = bank.num_filts
